@@ -60,9 +60,12 @@
        C20_env_map_lawful, C20_env_set_lawful.
 
    PARTLY COVERED / NOT COVERED BY A THEOREM
-     - "the decoded container is equal" is split in two theorems (roundtrip: the boolean is
-       true; _eq: == returns that boolean's value true on such a pair); they are composed only
-       on a concrete instance (C20_example_roundtrip_eq).
+     - "the decoded container is equal": the two halves (roundtrip: the boolean is true; _eq: ==
+       returns true on such a pair) are composed in ONE theorem in the APPENDED SECTION at the end
+       of this file: C20_serde_roundtrip_map_equal / C20_serde_roundtrip_set_equal (decode, then the
+       crate's == returns true), for every WF source with pairwise different keys.
+     - C20_ser_len alone is a list-length fact; the emitted sequence is tied to the iteration
+       protocol by C20_ser_emits (appended section).  Set overflow twin: C20_serde_overflow_set.
      - the theorems are about the instrumented element types of the harness (key, vobj) and
        the honest script, not about an arbitrary lawful environment.
      - the wire format, serde's Serializer/Deserializer contracts (e.g. that the length hint
@@ -308,3 +311,166 @@ Example C20_example_roundtrip_set :
         log := [];
         self := {| len := 2; slots := [Some (k_ 100000 5, tt); Some (k_ 100001 6, tt); None] |} |}.
 Proof. vm_compute. reflexivity. Qed.
+
+(* ========================================================================== *)
+(* APPENDED SECTION (audit findings on C20) — Proofs/MoreFmt.v
+   ========================================================================== *)
+Require Import Proofs.IterSpec.
+Require Import Proofs.MoreFmt.
+
+(* -------------------------------------------------------------------------- *)
+(* "serializing any Map or Set emits exactly len() entries" — tied to the iteration protocol.
+   The serializer is
+     let mut m = s.serialize_map(Some(self.len()))?;
+     for (k, v) in self.iter() { m.serialize_entry(k, v)?; }   m.end()
+   In the interpreter (ops OSerde / SSerde) the announced length is [len src] and the emitted
+   sequence is [Exec.elems src] (a Set emits [List.map fst] of it).  For every well-formed
+   source (any value type: Map and Set; any world w whose container is src): running iter()
+   and next() [len src] times yields the slots 0..len-1, each once, in order, after which the
+   iterator is exhausted; the world is unchanged (serializing changes nothing); the entries
+   held by the yielded slots are, in order, exactly the emitted list; that list is the
+   specification's [Spec.elems src]; its length is the announced [len src]. *)
+Theorem C20_ser_emits :
+  forall (V T : Type) (src : map key V) (w : world key V T),
+    WF src -> self w = src ->
+    wp (c <- iter ;; iter_run (len src) c)
+       (fun (r : list nat * cursor) (w' : world key V T) =>
+          w' = w /\ fst r = seq 0 (len src) /\ cursor_len (snd r) = 0 /\
+          List.map (fun i : nat => nth_error (slots src) i) (fst r) =
+          List.map (fun p : key * V => Some (Some p)) (Exec.elems src) /\
+          Exec.elems src = Spec.elems src /\
+          length (Exec.elems src) = len src)
+       (fun _ : world key V T => False) w.
+Proof. exact (@ser_emits). Qed.
+Print Assumptions C20_ser_emits.
+
+(* -------------------------------------------------------------------------- *)
+(* "deserializing that output into a container of sufficient capacity yields one equal to the
+   original, for every content and internal order" — ONE theorem: decode, then compare with the
+   crate's own ==.
+   Quantification: the honest script; EVERY well-formed source with pairwise different keys —
+   any content, any internal (slot) order, any capacity of the source; NOT only sources built
+   by a particular history (every state reachable under a lawful == satisfies WF and Uniq:
+   C02/C04, C01/C05) —; every target capacity cp >= len src; both build modes; any callback
+   state s and log lg.  The visited list is the term op OSerde passes, [Exec.elems src].
+   Conclusion: no panic, no UB; == returns true; the decoded container (still the register:
+   == does not touch it) is well formed, has the source's length, the target capacity cp,
+   pairwise different keys; nothing was logged (no object dropped or cloned).
+   [Uniq] cannot be dropped: a source holding the same key twice would decode to a shorter map. *)
+Theorem C20_serde_roundtrip_map_equal :
+  forall (debug : bool) (sc : script) (src : map key vobj) (cp : nat) (s : cstate) (lg : list event),
+    honest sc -> WF src -> Uniq kcls (Spec.elems src) -> len src <= cp ->
+    wp (_ <- finally_drop (env_map sc) (visit_map debug sc (Exec.elems src)) ;;
+        m' <- get_self ;;
+        map_eq (env_map sc) src m')
+       (fun (r : bool) (w' : world key vobj cstate) =>
+          r = true /\
+          WF (self w') /\ len (self w') = len src /\ cap (self w') = cp /\
+          Uniq kcls (Spec.elems (self w')) /\ log w' = lg)
+       (fun _ : world key vobj cstate => False)
+       {| cb := s; log := lg; self := new_map cp |}.
+Proof. exact serde_roundtrip_map_equal. Qed.
+Print Assumptions C20_serde_roundtrip_map_equal.
+
+Theorem C20_serde_roundtrip_set_equal :
+  forall (debug : bool) (sc : script) (src : map key unit) (cp : nat) (s : cstate) (lg : list event),
+    honest sc -> WF src -> Uniq kcls (Spec.elems src) -> len src <= cp ->
+    wp (_ <- finally_drop (env_set sc) (visit_seq debug sc (List.map fst (Exec.elems src))) ;;
+        m' <- get_self ;;
+        map_eq (env_set sc) src m')
+       (fun (r : bool) (w' : world key unit cstate) =>
+          r = true /\
+          WF (self w') /\ len (self w') = len src /\ cap (self w') = cp /\
+          Uniq kcls (Spec.elems (self w')) /\ log w' = lg)
+       (fun _ : world key unit cstate => False)
+       {| cb := s; log := lg; self := new_map cp |}.
+Proof. exact serde_roundtrip_set_equal. Qed.
+Print Assumptions C20_serde_roundtrip_set_equal.
+
+(* -------------------------------------------------------------------------- *)
+(* "capacities of source and target" — insufficient capacity, the Set twin of
+   C20_serde_overflow: if cp < len src the visitor never returns normally (the insert into the
+   full local set panics) and the unwinding, which destroys the partly built set, is free of UB. *)
+Theorem C20_serde_overflow_set :
+  forall (debug : bool) (sc : script) (src : map key unit) (cp : nat) (s : cstate) (lg : list event),
+    honest sc -> WF src -> Uniq kcls (Spec.elems src) -> cp < len src ->
+    wp (finally_drop (env_set sc) (visit_seq debug sc (List.map fst (Spec.elems src))))
+       (fun (_ : unit) (_ : world key unit cstate) => False)
+       (fun _ : world key unit cstate => True)
+       {| cb := s; log := lg; self := new_map cp |}.
+Proof. exact serde_overflow_set. Qed.
+Print Assumptions C20_serde_overflow_set.
+
+(* both overflow theorems on the term the interpreter really passes ([Exec.elems src]) *)
+Theorem C20_serde_overflow_map_exec :
+  forall (debug : bool) (sc : script) (src : map key vobj) (cp : nat) (s : cstate) (lg : list event),
+    honest sc -> WF src -> Uniq kcls (Spec.elems src) -> cp < len src ->
+    wp (finally_drop (env_map sc) (visit_map debug sc (Exec.elems src)))
+       (fun (_ : unit) (_ : world key vobj cstate) => False)
+       (fun _ : world key vobj cstate => True)
+       {| cb := s; log := lg; self := new_map cp |}.
+Proof. exact serde_overflow_map_exec. Qed.
+Print Assumptions C20_serde_overflow_map_exec.
+
+Theorem C20_serde_overflow_set_exec :
+  forall (debug : bool) (sc : script) (src : map key unit) (cp : nat) (s : cstate) (lg : list event),
+    honest sc -> WF src -> Uniq kcls (Spec.elems src) -> cp < len src ->
+    wp (finally_drop (env_set sc) (visit_seq debug sc (List.map fst (Exec.elems src))))
+       (fun (_ : unit) (_ : world key unit cstate) => False)
+       (fun _ : world key unit cstate => True)
+       {| cb := s; log := lg; self := new_map cp |}.
+Proof. exact serde_overflow_set_exec. Qed.
+Print Assumptions C20_serde_overflow_set_exec.
+
+(* -------------------------------------------------------------------------- *)
+(* Non-vacuity (C20_sc0, m3, C20_s2 and their WF / Uniq / honest examples are above). *)
+
+(* the serializer's walk over m3: slots 0, 1, 2, world unchanged *)
+Example C20_example_ser_emits :
+  (c <- iter ;; iter_run (len m3) c) (w_of m3) = Ok ([0; 1; 2], (3, 3)) (w_of m3) /\
+  Exec.elems m3 = [(k_ 1 5, v_ 2 7); (k_ 3 6, v_ 4 8); (k_ 5 7, v_ 6 9)].
+Proof. split; vm_compute; reflexivity. Qed.
+
+(* an internal order that no insertion-only history produces (the state after removing the
+   first of four entries: the last one took its place) round-trips as well *)
+Definition C20_m3swap : map key vobj :=
+  {| len := 3; slots := [Some (k_ 5 7, v_ 6 9); Some (k_ 3 6, v_ 4 8); Some (k_ 1 5, v_ 2 7); None] |}.
+
+Example C20_example_WF_swap : WF C20_m3swap.
+Proof.
+  split; [cbn; lia|]. intros i Hi. cbn [len C20_m3swap] in Hi.
+  destruct i as [|[|[|i]]]; try lia; eexists; reflexivity.
+Qed.
+
+Example C20_example_Uniq_swap : Uniq kcls (Spec.elems C20_m3swap).
+Proof.
+  unfold Uniq. vm_compute.
+  repeat (constructor; [cbn [In]; intuition discriminate|]). constructor.
+Qed.
+
+Example C20_example_roundtrip_equal :
+  match (_ <- finally_drop (env_map C20_sc0) (visit_map false C20_sc0 (Exec.elems C20_m3swap)) ;;
+         m' <- get_self ;; map_eq (env_map C20_sc0) C20_m3swap m')
+        {| cb := cs0; log := []; self := new_map 5 |} with
+  | Ok r w' => r = true /\ len (self w') = 3 /\ cap (self w') = 5 /\ log w' = []
+  | _ => False
+  end.
+Proof. vm_compute. repeat split. Qed.
+
+Example C20_example_roundtrip_set_equal :
+  match (_ <- finally_drop (env_set C20_sc0) (visit_seq false C20_sc0 (List.map fst (Exec.elems C20_s2))) ;;
+         m' <- get_self ;; map_eq (env_set C20_sc0) C20_s2 m')
+        {| cb := cs0; log := []; self := new_map 2 |} with
+  | Ok r w' => r = true /\ len (self w') = 2 /\ log w' = []
+  | _ => False
+  end.
+Proof. vm_compute. repeat split. Qed.
+
+(* Set target too small (capacity 1 < 2 elements): the visitor unwinds *)
+Example C20_example_overflow_set :
+  match finally_drop (env_set C20_sc0) (visit_seq false C20_sc0 (List.map fst (Spec.elems C20_s2)))
+                     {| cb := cs0; log := []; self := new_map 1 |} with
+  | Panic _ => True
+  | _ => False
+  end.
+Proof. vm_compute. exact I. Qed.
